@@ -101,10 +101,12 @@ StackH(f) ==
               [o \in 1..Len(outers) |-> [k \in 1..(n * m) |-> cell(k, o)]], f.name)
 (* unstack (innermost index level of a depth-2 index into the columns), as a relation: one row per distinct outer label, one column   *)
 (* per (column, inner label) pair, the cell at (outer, (c, inner)) = the source cell at ((outer, inner), c), the fill where absent   *)
-UnstackRows(f) == Dedupe([i \in 1..NRows(f) |-> f.index[i][2][1]])
-UnstackInner(f) == Dedupe([i \in 1..NRows(f) |-> f.index[i][2][2]])
+(* (an index of depth d > 2 keeps its outer d - 1 levels as a hierarchy: the row label is then the tuple of those levels, rows in order of first appearance) *)
+UnstackOuterOf(l) == MkLabel(SubSeq(l[2], 1, Len(l[2]) - 1))
+UnstackRows(f) == Dedupe([i \in 1..NRows(f) |-> UnstackOuterOf(f.index[i])])
+UnstackInner(f) == Dedupe([i \in 1..NRows(f) |-> f.index[i][2][Len(f.index[i][2])]])
 UnstackCell(f, outer, c, inner, fill) ==
-  LET p == Find(f.index, Tup(<<outer, inner>>)) IN IF p < 0 THEN fill ELSE CellAt(f, p + 1, ColIdx(f, c))
+  LET p == Find(f.index, Tup(Levels(outer) \o <<inner>>)) IN IF p < 0 THEN fill ELSE CellAt(f, p + 1, ColIdx(f, c))
 
 (* ---- pivot ------------------------------------------------------------------------------------------------------------------------ *)
 PivotRowKeys(f, ixf) == Dedupe([i \in 1..NRows(f) |-> KeyTuple(f, i, ixf)])
